@@ -12,7 +12,8 @@ from vf.ref import blk_ref, vbs_ref
 PROPERTY = 'C09'
 LEVEL = 'fault_enumeration'
 
-SINGLES = [1, 2, 3, 4, 5, 100, 1003, 1004, 1007, 1008, 1009, 1011, 1012, 1013, 1016, 2020, 2024, 3030, 6000]
+SINGLES = [1, 2, 3, 4, 5, 100, 1003, 1004, 1007, 1008, 1009, 1011, 1012, 1013, 1016, 2019, 2020, 2021, 2022, 2024, 2025,
+           3030, 3032, 3033, 3034, 5056, 5057, 5058, 6000]
 PAIR_AL = [1, 4, 1004, 1008, 1012, 1016, 2020]
 TRIPLES = [[1, 1, 1], [1008, 1008, 1008], [1004, 4, 1004], [1012, 1012, 1012], [3, 2021, 1], [1000, 20, 1000],
            [2020, 1, 2020]]
